@@ -4,14 +4,16 @@
 //
 // Two streams (a case starts with `reset`):
 //
-//	exact  — reset kind=x bx= bz= ex= ez= step= | add/mov id= x= y= z= | del id= | q x= y= z= r=
+//	exact  — reset kind=x bx= bz= ex= ez= step= | add/mov id= x= y= z= | del id= | q x= y= z= r= [own=]
+//	         (own = the searcher's Validate rejects that id, as searchers.FindPlayers rejects its owner;
+//	         observation of q: z=<zoned> b=<SimpleSpace handed only fresh ids> s=<SimpleSpace handed every op>)
 //	         integers counting quarter units (value/4 is the float32 handed to the code);
 //	         magnitudes are kept where float32 is exact for the zone index and for the
 //	         `dist > r` test, so the Lean model must reproduce the observation verbatim.
 //	float  — reset kind=f (default | bx= … as float32 bit patterns) | fadd/fmov/fdel/fq with
 //	         float32 bit patterns (8 hex digits): arbitrary values incl. huge, tiny, non-finite.
 //	         Observation of fq: z=<zoned> b=<own brute-force scan over a shadow copy, same
-//	         Pos.Distance> e=<ids within 2 ulp of the radius or at a non-finite position>
+//	         Pos.Distance> s=<SimpleSpace handed only fresh ids: must equal b> e=<ids within 2 ulp of the radius or at a non-finite position>
 //	         nf=<1 if the query itself is non-finite>.
 package c20
 
@@ -31,12 +33,17 @@ import (
 	"mmo/servers/scene/space/factory"
 )
 
-// collect is an ISearcher that accepts every candidate.
-type collect struct{ ids []entity.EntityID }
+// collect is an ISearcher that accepts every candidate except the owner (if it has one),
+// the way searchers.FindPlayers rejects its ownerId.
+type collect struct {
+	ids    []entity.EntityID
+	own    entity.EntityID
+	hasOwn bool
+}
 
-func (c *collect) Validate(id entity.EntityID, dist float32) bool { return true }
-func (c *collect) AddCandidate(id entity.EntityID, dist float32) { c.ids = append(c.ids, id) }
-func (c *collect) MakeResults() []entity.EntityID                { return c.ids }
+func (c *collect) Validate(id entity.EntityID, dist float32) bool { return !(c.hasOwn && id == c.own) }
+func (c *collect) AddCandidate(id entity.EntityID, dist float32)  { c.ids = append(c.ids, id) }
+func (c *collect) MakeResults() []entity.EntityID                 { return c.ids }
 
 func showIDs(ids []entity.EntityID) string {
 	xs := make([]int, len(ids))
@@ -58,13 +65,19 @@ func showIDs(ids []entity.EntityID) string {
 // copy of what was put into them.
 type world struct {
 	zone   define.ISpace
-	simple define.ISpace
+	simple define.ISpace // handed only the adds of ids that are not live: the reference of the zoned contract
+	all    define.ISpace // a second SimpleSpace handed every op verbatim (its own contract: add of a live id moves it)
 	kind   string
 	pos    map[entity.EntityID]define.Pos // shadow copy (ZoneSpace contract: add of a live id is a no-op)
 	order  []entity.EntityID
 }
 
 var w *world
+
+// lastHidden: number of entities of the last fq whose distance computed in float64 is clearly within the
+// radius (by more than 1 part in 10^5) but whose float32 Pos.Distance is not (dx*dx overflows to +Inf beyond
+// ~1.8e19) — both implementations and the oracle share Distance, so this is recorded in the histogram, not judged.
+var lastHidden int
 
 func kvI(ws []string, key string) (int64, bool) {
 	v, ok := hx.KV(ws, key)
@@ -109,6 +122,7 @@ func ulp(f float32) float64 {
 
 func (w *world) add(id entity.EntityID, p define.Pos) {
 	w.zone.AddEntity(id, p)
+	w.all.AddEntity(id, p)
 	if _, live := w.pos[id]; !live {
 		// SimpleSpace.AddEntity moves a live id, ZoneSpace.AddEntity ignores it; the
 		// property is about the zoned contract, so the reference sees only fresh ids
@@ -121,6 +135,7 @@ func (w *world) add(id entity.EntityID, p define.Pos) {
 func (w *world) mov(id entity.EntityID, p define.Pos) {
 	w.zone.UpdateEntityPos(id, p)
 	w.simple.UpdateEntityPos(id, p)
+	w.all.UpdateEntityPos(id, p)
 	if _, live := w.pos[id]; live {
 		w.pos[id] = p
 	}
@@ -129,6 +144,7 @@ func (w *world) mov(id entity.EntityID, p define.Pos) {
 func (w *world) del(id entity.EntityID) {
 	w.zone.RemoveEntity(id)
 	w.simple.RemoveEntity(id)
+	w.all.RemoveEntity(id)
 	if _, live := w.pos[id]; live {
 		delete(w.pos, id)
 		for i, v := range w.order {
@@ -153,6 +169,10 @@ func exec(op string) string {
 			nw := &world{kind: kind, pos: map[entity.EntityID]define.Pos{}}
 			switch kind {
 			case "x":
+				if len(ws) > 2 && ws[2] == "default" { // the only Init call site of the repository
+					nw.zone = factory.CreateZoneSpace()
+					break
+				}
 				bx, a := kvI(ws, "bx")
 				bz, b := kvI(ws, "bz")
 				ex, c := kvI(ws, "ex")
@@ -184,6 +204,7 @@ func exec(op string) string {
 				return "bad-op"
 			}
 			nw.simple = factory.CreateNormalSpace()
+			nw.all = factory.CreateNormalSpace()
 			w = nw
 			return "ok"
 		})
@@ -201,6 +222,16 @@ func exec(op string) string {
 	}
 	id := entity.EntityID(hx.KVInt(ws, "id"))
 	_, hasID := hx.KV(ws, "id")
+	own, hasOwn := hx.KV(ws, "own")
+	ownID := entity.EntityID(0)
+	if hasOwn {
+		n, err := strconv.ParseUint(own, 10, 31)
+		if err != nil {
+			return "bad-op"
+		}
+		ownID = entity.EntityID(n)
+	}
+	searcher := func() *collect { return &collect{own: ownID, hasOwn: hasOwn} }
 	switch ws[0] {
 	case "add", "fadd":
 		p, ok := getPos(ws)
@@ -226,9 +257,10 @@ func exec(op string) string {
 			return "bad-op"
 		}
 		return hx.Guard(func() string {
-			z := w.zone.SearchCircleTargets(p, q4(r), &collect{})
-			b := w.simple.SearchCircleTargets(p, q4(r), &collect{})
-			return "z=" + showIDs(z) + " b=" + showIDs(b)
+			z := w.zone.SearchCircleTargets(p, q4(r), searcher())
+			b := w.simple.SearchCircleTargets(p, q4(r), searcher())
+			sv := w.all.SearchCircleTargets(p, q4(r), searcher())
+			return "z=" + showIDs(z) + " b=" + showIDs(b) + " s=" + showIDs(sv)
 		})
 	case "fq":
 		p, ok := getPos(ws)
@@ -237,13 +269,19 @@ func exec(op string) string {
 			return "bad-op"
 		}
 		return hx.Guard(func() string {
-			z := w.zone.SearchCircleTargets(p, r, &collect{})
+			z := w.zone.SearchCircleTargets(p, r, searcher())
+			sv := w.simple.SearchCircleTargets(p, r, searcher())
 			// the oracle: a scan over the shadow copy with the same Distance and the same test
 			var b, e []entity.EntityID
+			lastHidden = 0
 			for _, id := range w.order {
 				ep := w.pos[id]
 				d := p.Distance(ep)
-				if !(d > r) {
+				if dx, dy, dz := float64(p.X)-float64(ep.X), float64(p.Y)-float64(ep.Y), float64(p.Z)-float64(ep.Z); d > r && finite(r) &&
+					math.Sqrt(dx*dx+dy*dy+dz*dz) < float64(r)*(1-1e-5) {
+					lastHidden++
+				}
+				if !(d > r) && !(hasOwn && id == ownID) {
 					b = append(b, id)
 				}
 				if !finite(ep.X) || !finite(ep.Y) || !finite(ep.Z) {
@@ -262,7 +300,7 @@ func exec(op string) string {
 			if !finite(p.X) || !finite(p.Y) || !finite(p.Z) || !finite(r) {
 				nf = 1
 			}
-			return fmt.Sprintf("z=%s b=%s e=%s nf=%d", showIDs(z), showIDs(b), showIDs(e), nf)
+			return fmt.Sprintf("z=%s b=%s s=%s e=%s nf=%d", showIDs(z), showIDs(b), showIDs(sv), showIDs(e), nf)
 		})
 	}
 	return "bad-op"
@@ -282,19 +320,30 @@ func (g *gen) run(op string) string {
 
 // exact stream --------------------------------------------------------------
 
-type geoX struct{ bx, bz, ex, ez, st int64 }
+type geoX struct {
+	bx, bz, ex, ez, st int64
+	def                bool // made by factory.CreateZoneSpace() (the numbers are what the factory is expected to pass to Init)
+}
+
+func (ge geoX) reset() string {
+	if ge.def {
+		return "reset kind=x default"
+	}
+	return fmt.Sprintf("reset kind=x bx=%d bz=%d ex=%d ez=%d step=%d", ge.bx, ge.bz, ge.ex, ge.ez, ge.st)
+}
 
 var geosX = []geoX{
-	{-120, -120, 120, 120, 20}, // the factory geometry: ±30, zone size 5
-	{-20, -20, 20, 20, 20},     // zonespace_test.go
-	{0, 0, 400, 200, 10},
-	{-32, -32, 32, 32, 1}, // zone size 0.25: 65 x 65 zones
-	{-1024, -1024, 1024, 1024, 64},
-	{0, 0, 0, 0, 20},            // a single zone
-	{-120, -120, 120, 120, 12},  // zone size 3
-	{-100, -60, 77, 130, 28},    // zone size 7, extent not a multiple
-	{-120, -120, 120, 120, 256}, // zone larger than the map
-	{40, -400, 41, 400, 3},      // a thin strip
+	{-120, -120, 120, 120, 20, false}, // the factory geometry: ±30, zone size 5
+	{-120, -120, 120, 120, 20, true},  // the factory itself
+	{-20, -20, 20, 20, 20, false},     // zonespace_test.go
+	{0, 0, 400, 200, 10, false},
+	{-32, -32, 32, 32, 1, false}, // zone size 0.25: 65 x 65 zones
+	{-1024, -1024, 1024, 1024, 64, false},
+	{0, 0, 0, 0, 20, false},            // a single zone
+	{-120, -120, 120, 120, 12, false},  // zone size 3
+	{-100, -60, 77, 130, 28, false},    // zone size 7, extent not a multiple
+	{-120, -120, 120, 120, 256, false}, // zone larger than the map
+	{40, -400, 41, 400, 3, false},      // a thin strip
 }
 
 const lim = 1024 // |coordinate| ≤ 256 units keeps the squared distance exact in float32
@@ -354,8 +403,8 @@ func isqrt(n int64) int64 {
 func (g *gen) caseX(nops int) {
 	r := g.t.R
 	ge := geosX[r.Intn(len(geosX))]
-	g.t.Count(fmt.Sprintf("x:geo:%d,%d,%d,%d/%d", ge.bx, ge.bz, ge.ex, ge.ez, ge.st))
-	g.run(fmt.Sprintf("reset kind=x bx=%d bz=%d ex=%d ez=%d step=%d", ge.bx, ge.bz, ge.ex, ge.ez, ge.st))
+	g.t.Count(fmt.Sprintf("x:geo:%d,%d,%d,%d/%d def=%v", ge.bx, ge.bz, ge.ex, ge.ez, ge.st, ge.def))
+	g.run(ge.reset())
 	type P struct{ x, y, z int64 }
 	live := map[int]P{}
 	pool := 4 + r.Intn(24)
@@ -388,8 +437,45 @@ func (g *gen) caseX(nops int) {
 			g.run(fmt.Sprintf("add id=%d x=%d y=%d z=%d", id, p.x, p.y, p.z))
 		case k < 56:
 			id, p := pickID(), pos()
+			var tight *P // a follow-up query hugging the entity after a minimal step over a zone border
+			var away P
 			if old, ok := live[id]; ok {
-				if c := r.Intn(4); c == 0 { // a small step, often inside the same zone
+				if c := r.Intn(5); c == 4 {
+					// the smallest steps over a border of the zone the entity is registered in (one axis or a corner),
+					// then a query whose circle contains the entity but stays on the far side of that border
+					lohi := func(v, begin, end int64) (int64, int64) {
+						col := int64(0)
+						if v > begin {
+							col = (v - begin) / ge.st
+						}
+						if n := (end - begin) / ge.st; col > n {
+							col = n
+						}
+						return begin + col*ge.st, begin + (col+1)*ge.st
+					}
+					step := func(v, begin, end int64) (int64, int64) { // new coordinate, direction of the step
+						lo, hi := lohi(v, begin, end)
+						d := int64(1 + r.Intn(2))
+						if r.Intn(2) == 0 {
+							return clampL(lo - d), -1
+						}
+						return clampL(hi - 1 + d), 1
+					}
+					p = P{old.x, old.y, old.z}
+					var dx, dz int64
+					switch r.Intn(3) {
+					case 0:
+						p.x, dx = step(old.x, ge.bx, ge.ex)
+					case 1:
+						p.z, dz = step(old.z, ge.bz, ge.ez)
+					default:
+						p.x, dx = step(old.x, ge.bx, ge.ex)
+						p.z, dz = step(old.z, ge.bz, ge.ez)
+					}
+					tight = &p
+					away = P{dx, 0, dz}
+					g.t.Count("x:mov-border-step")
+				} else if c == 0 { // a small step, often inside the same zone
 					p = P{clampL(old.x + int64(r.Intn(9)-4)), old.y, clampL(old.z + int64(r.Intn(9)-4))}
 					g.t.Count("x:mov-small")
 				} else if c == 1 { // along one axis only: the other zone coordinate stays
@@ -407,6 +493,23 @@ func (g *gen) caseX(nops int) {
 				g.t.Count("x:mov-unknown")
 			}
 			g.run(fmt.Sprintf("mov id=%d x=%d y=%d z=%d", id, p.x, p.y, p.z))
+			if tight != nil {
+				// centre shifted away from the crossed border by the radius: the entity is on the rim or inside
+				rad := int64(r.Intn(4))
+				sh := rad
+				if r.Intn(3) == 0 && away.x != 0 && away.z != 0 {
+					sh = 0 // corner step: keep the centre on the entity
+				}
+				q := P{clampL(tight.x + away.x*sh), tight.y, clampL(tight.z + away.z*sh)}
+				if away.x != 0 && away.z != 0 && sh > 0 {
+					q = P{clampL(tight.x + away.x*sh), tight.y, tight.z} // one axis, so that the distance stays = rad
+					if r.Intn(2) == 0 {
+						q = P{tight.x, tight.y, clampL(tight.z + away.z*sh)}
+					}
+				}
+				g.t.Count("x:q:tight-after-border-step")
+				g.run(fmt.Sprintf("q x=%d y=%d z=%d r=%d", q.x, q.y, q.z, rad))
+			}
 		case k < 66:
 			id := pickID()
 			if _, ok := live[id]; ok {
@@ -466,7 +569,12 @@ func (g *gen) caseX(nops int) {
 				rad = int64(r.Intn(1200))
 				g.t.Count("x:q:r-random")
 			}
-			obs := g.run(fmt.Sprintf("q x=%d y=%d z=%d r=%d", q.x, q.y, q.z, rad))
+			own := ""
+			if r.Intn(4) == 0 { // a searcher that rejects its owner (usually a live id)
+				own = fmt.Sprintf(" own=%d", pickID())
+				g.t.Count("x:q:searcher-rejects-owner")
+			}
+			obs := g.run(fmt.Sprintf("q x=%d y=%d z=%d r=%d%s", q.x, q.y, q.z, rad, own))
 			if strings.HasPrefix(obs, "z= ") {
 				g.t.Count("x:q:result-empty")
 			} else {
@@ -688,11 +796,19 @@ func (g *gen) caseF(nops int) {
 				rad = r.Float32() * 300
 				g.t.Count("f:q:r-random")
 			}
-			obs := g.run(fmt.Sprintf("fq x=%s y=%s z=%s r=%s", fb(q.X), fb(q.Y), fb(q.Z), fb(rad)))
+			own := ""
+			if r.Intn(4) == 0 {
+				own = fmt.Sprintf(" own=%d", 1+r.Intn(pool))
+				g.t.Count("f:q:searcher-rejects-owner")
+			}
+			obs := g.run(fmt.Sprintf("fq x=%s y=%s z=%s r=%s%s", fb(q.X), fb(q.Y), fb(q.Z), fb(rad), own))
 			ows := hx.Words(obs)
 			zs, _ := hx.KV(ows, "z")
 			bs, _ := hx.KV(ows, "b")
 			nf, _ := hx.KV(ows, "nf")
+			if lastHidden > 0 {
+				g.t.Count("f:q:float32-distance-overflow-hides-an-in-range-entity(recorded)")
+			}
 			switch {
 			case nf == "1":
 				g.t.Count("f:q:non-finite-query")
@@ -707,6 +823,206 @@ func (g *gen) caseF(nops int) {
 				g.t.Count("f:q:result-nonempty")
 			}
 		}
+	}
+}
+
+// crowd cases ---------------------------------------------------------------
+//
+// Many entities (17..106, sometimes fewer) packed into one hot zone (a few land
+// elsewhere), queried while the zone fills, then drained by removals and moves out
+// of the zone until only a handful remain, with moves of the earliest survivors and
+// queries aimed at the entities present in between, then an aftermath of re-adds,
+// moves and queries.  The slices behind a zone / behind SimpleSpace grow through
+// several capacities and lose most of their elements again — behaviour of the code
+// that depends on len/cap of a slice (growth, shrinking, reslicing, pointers into
+// a reallocated array) is only reachable this way.  `float` = the same case in the
+// float stream's syntax (quarter-unit values as float32 bit patterns).
+func (g *gen) caseCrowd(float bool) {
+	r := g.t.R
+	ge := geosX[r.Intn(len(geosX))]
+	type P struct{ x, y, z int64 }
+	tag := "cx"
+	if float {
+		tag = "cf"
+	}
+	g.t.Count(fmt.Sprintf("%s:geo:%d,%d,%d,%d/%d", tag, ge.bx, ge.bz, ge.ex, ge.ez, ge.st))
+	num := func(v int64) string {
+		if float {
+			return fb(q4(v))
+		}
+		return strconv.FormatInt(v, 10)
+	}
+	pre := ""
+	if float {
+		pre = "f"
+		if ge.def {
+			g.run("reset kind=f default")
+		} else {
+			g.run(fmt.Sprintf("reset kind=f bx=%s bz=%s ex=%s ez=%s step=%s", num(ge.bx), num(ge.bz), num(ge.ex), num(ge.ez), num(ge.st)))
+		}
+	} else {
+		g.run(ge.reset())
+	}
+	live := map[int]P{}
+	var order []int // live ids, oldest first
+	maxLive := 0
+	add := func(id int, p P) {
+		if _, ok := live[id]; !ok {
+			live[id] = p
+			order = append(order, id)
+			if len(live) > maxLive {
+				maxLive = len(live)
+			}
+		} else {
+			g.t.Count(tag + ":add-live-id")
+		}
+		g.run(fmt.Sprintf("%sadd id=%d x=%s y=%s z=%s", pre, id, num(p.x), num(p.y), num(p.z)))
+	}
+	mov := func(id int, p P) {
+		if _, ok := live[id]; ok {
+			live[id] = p
+		}
+		g.run(fmt.Sprintf("%smov id=%d x=%s y=%s z=%s", pre, id, num(p.x), num(p.y), num(p.z)))
+	}
+	del := func(id int) {
+		if _, ok := live[id]; ok {
+			delete(live, id)
+			for i, v := range order {
+				if v == id {
+					order = append(order[:i], order[i+1:]...)
+					break
+				}
+			}
+		}
+		g.run(fmt.Sprintf("%sdel id=%d", pre, id))
+	}
+	// the hot zone
+	nx, nz := (ge.ex-ge.bx)/ge.st, (ge.ez-ge.bz)/ge.st
+	hx, hz := int64(r.Intn(int(nx)+1)), int64(r.Intn(int(nz)+1))
+	hot := func() P {
+		y := int64(0)
+		if r.Intn(4) == 0 {
+			y = int64(r.Intn(17)) - 8
+		}
+		return P{clampL(ge.bx + hx*ge.st + int64(r.Intn(int(ge.st)))), y, clampL(ge.bz + hz*ge.st + int64(r.Intn(int(ge.st))))}
+	}
+	away := func() P {
+		return P{g.coordX(ge.bx, ge.ex, ge.st, tag+":coord"), 0, g.coordX(ge.bz, ge.ez, ge.st, tag+":coord")}
+	}
+	query := func() {
+		var q P
+		var rad int64
+		switch c := r.Intn(8); {
+		case c < 5 && len(order) > 0: // at a live entity (often one of the oldest), small radius
+			id := order[r.Intn(len(order))]
+			if r.Intn(2) == 0 {
+				id = order[r.Intn(1+len(order)/4)]
+			}
+			q = live[id]
+			rad = []int64{0, 1, 2, ge.st, int64(r.Intn(int(ge.st) + 2))}[r.Intn(5)]
+			g.t.Count(tag + ":q:at-entity")
+		case c < 7: // the whole hot zone
+			q = P{clampL(ge.bx + hx*ge.st + ge.st/2), 0, clampL(ge.bz + hz*ge.st + ge.st/2)}
+			rad = []int64{ge.st, 2 * ge.st, 3 * ge.st, 2048}[r.Intn(4)]
+			g.t.Count(tag + ":q:hot-zone")
+		default:
+			q = away()
+			rad = int64(r.Intn(600))
+			g.t.Count(tag + ":q:random")
+		}
+		own := ""
+		if r.Intn(4) == 0 && len(order) > 0 {
+			own = fmt.Sprintf(" own=%d", order[r.Intn(len(order))])
+			g.t.Count(tag + ":q:searcher-rejects-owner")
+		}
+		var obs string
+		if float {
+			obs = g.run(fmt.Sprintf("fq x=%s y=%s z=%s r=%s%s", num(q.x), num(q.y), num(q.z), num(rad), own))
+		} else {
+			obs = g.run(fmt.Sprintf("q x=%d y=%d z=%d r=%d%s", q.x, q.y, q.z, rad, own))
+		}
+		if strings.HasPrefix(obs, "z= ") {
+			g.t.Count(tag + ":q:result-empty")
+		} else {
+			g.t.Count(tag + ":q:result-nonempty")
+		}
+	}
+	n := 17 + r.Intn(90)
+	if r.Intn(4) == 0 {
+		n = 9 + r.Intn(32)
+	}
+	// fill
+	for id := 1; id <= n; id++ {
+		if r.Intn(8) == 0 {
+			add(id, away())
+		} else {
+			add(id, hot())
+		}
+		if r.Intn(6) == 0 {
+			query()
+		}
+		if r.Intn(12) == 0 && len(order) > 0 { // an early entity moves inside the crowd
+			mov(order[r.Intn(1+len(order)/4)], hot())
+			g.t.Count(tag + ":mov-early")
+		}
+	}
+	query()
+	// drain
+	leave := r.Intn(9)
+	perm := r.Perm(n)
+	for _, k := range perm {
+		if len(live) <= leave {
+			break
+		}
+		id := k + 1
+		switch c := r.Intn(12); {
+		case c < 6:
+			del(id)
+			g.t.Count(tag + ":drain-del")
+		case c < 10:
+			mov(id, away())
+			g.t.Count(tag + ":drain-mov-out")
+		default:
+			mov(id, hot())
+			g.t.Count(tag + ":drain-mov-inside")
+		}
+		if r.Intn(5) == 0 {
+			query()
+		}
+		if r.Intn(10) == 0 && len(order) > 0 {
+			mov(order[r.Intn(1+len(order)/4)], hot())
+			g.t.Count(tag + ":mov-early")
+		}
+	}
+	query()
+	// aftermath
+	for i, m := 0, 8+r.Intn(16); i < m; i++ {
+		switch c := r.Intn(10); {
+		case c < 3:
+			add(1+r.Intn(n), hot())
+		case c < 6 && len(order) > 0:
+			id := order[r.Intn(len(order))]
+			if r.Intn(2) == 0 {
+				mov(id, hot())
+			} else {
+				mov(id, away())
+			}
+		case c < 7 && len(order) > 0:
+			del(order[r.Intn(len(order))])
+		default:
+			query()
+		}
+	}
+	query()
+	switch {
+	case maxLive > 64:
+		g.t.Count(tag + ":max-live>64")
+	case maxLive > 32:
+		g.t.Count(tag + ":max-live>32")
+	case maxLive > 16:
+		g.t.Count(tag + ":max-live>16")
+	default:
+		g.t.Count(tag + ":max-live<=16")
 	}
 }
 
@@ -728,8 +1044,11 @@ func TestRun(t *testing.T) {
 	stream := hx.Env("VERIF_STREAM", "both")
 	for h.N < n {
 		k := 20 + h.R.Intn(50)
+		float := stream == "f" || (stream == "both" && h.R.Intn(2) == 0)
 		switch {
-		case stream == "x" || (stream == "both" && h.R.Intn(2) == 0):
+		case h.R.Intn(12) == 0:
+			g.caseCrowd(float)
+		case !float:
 			g.caseX(k)
 		default:
 			g.caseF(k)
